@@ -169,7 +169,7 @@ __CPROVER_ensures(instance->kind == DATA_KIND_CHUNK && instance->sink.chunk == s
 #define RPP_READ_MUST_SERVE(p, mf) (RPP_BS(mf) * RPP_WS(p) + 16u <= RPP_TRXSIZE(p))
 #define RPP_KIND(p, mf) (RPP_IS_READ(mf) ? (RPP_M16(p) ? BE_READ16 : BE_READ8) : (RPP_M16(p) ? BE_WRITE16 : BE_WRITE8))
 
-#define RPP_BE_GHOSTS g_be_calls, g_be_kind, g_be_addr, g_be_n, g_be_buf, g_be_in, g_be_out, g_be_status, g_be_raddr
+#define RPP_BE_GHOSTS g_be
 extern uint8_t g_rx_octet;   /* octet g_k of the request payload at entry (pinned in requires) */
 
 #ifdef RPP_UNIT_REGP   /* src/register-protocol.c is part of the unit */
@@ -488,7 +488,7 @@ __CPROVER_ensures(g_al_allocs == __CPROVER_old(g_al_allocs) + 1)
 __CPROVER_ensures(__CPROVER_return_value <= 0)
 __CPROVER_ensures(IMPLIES(__CPROVER_return_value < 0, g_al_live == 0 && g_al_block == __CPROVER_old(g_al_block)))
 __CPROVER_ensures(IMPLIES(__CPROVER_return_value == 0,
-    g_al_live == 1 && *m == g_al_block && __CPROVER_is_fresh(*m, ba->blocksize)))
+    __CPROVER_is_fresh(*m, ba->blocksize) && g_al_live == 1 && g_al_block == *m))
 ;
 
 void block_free(BlockAllocator *ba, void *m)
@@ -527,29 +527,47 @@ __CPROVER_ensures(b->used == sizeof(RPFrame))
   && !__CPROVER_same_object((cs)->fallback->data, (cs)->alloc))
 #define RPP_CS_CONF_OK(cs) (__CPROVER_rw_ok((cs), sizeof(ContinuableSink)) && RPP_ALLOC_OK((cs)->alloc) \
   && RPP_FB_OK((cs)->fallback) && (cs)->postalloc == setup_buffer && RPP_CS_SEP(cs))
-/* state invariant; BLOCK says how the block is known to be a block */
+/* state invariant, in pieces (each is its own obligation where it is ensured);
+ * BLOCK says how the block is known to be a block */
+#define RPP_CS_ST_ID(cs) \
+  (((cs)->error.id == 0 || (cs)->error.id == EBUSY || (cs)->error.id == ENOMEM) && g_al_allocs <= 1)
+/* no block (yet, or allocation failed) */
+#define RPP_CS_ST_NOBLOCK(cs) \
+  IMPLIES((cs)->buffer.data == NULL, \
+    (cs)->buffer.size == 0 && (cs)->buffer.used == 0 && (cs)->buffer.offset == 0 && g_al_live == 0 \
+    && (cs)->error.id != ENOMEM \
+    && IMPLIES((cs)->error.id == 0, g_al_allocs == 0 && (cs)->error.datacount == 0 \
+               && (cs)->fallback->used == 0 && (cs)->fallback->offset == 0) \
+    && IMPLIES((cs)->error.id == EBUSY, g_al_allocs == 1 && (cs)->fallback->offset == 0))
+/* the block: the one live block of the ledger, exactly blocksize octets */
+#define RPP_CS_ST_BLOCK_LEDGER(cs) \
+  IMPLIES((cs)->buffer.data != NULL, \
+    (void *)(cs)->buffer.data == g_al_block && g_al_live == 1 && g_al_allocs == 1)
+#define RPP_CS_ST_BLOCK_SEP(cs) \
+  IMPLIES((cs)->buffer.data != NULL, \
+    !__CPROVER_same_object((cs)->buffer.data, (cs)) && !__CPROVER_same_object((cs)->buffer.data, (cs)->fallback) \
+    && !__CPROVER_same_object((cs)->buffer.data, (cs)->fallback->data) \
+    && !__CPROVER_same_object((cs)->buffer.data, (cs)->alloc))
+#define RPP_CS_ST_BLOCK_FILL(cs) \
+  IMPLIES((cs)->buffer.data != NULL, \
+    (cs)->buffer.size == (cs)->alloc->blocksize && (cs)->buffer.offset == 0 \
+    && sizeof(RPFrame) <= (cs)->buffer.used && (cs)->buffer.used <= (cs)->buffer.size \
+    && (cs)->error.id != EBUSY \
+    && IMPLIES((cs)->error.id == 0, (cs)->error.datacount == 0) \
+    && IMPLIES((cs)->error.id == ENOMEM, (cs)->buffer.used == (cs)->buffer.size) \
+    && (cs)->fallback->used == 0 && (cs)->fallback->offset == 0)
+/* BLOCK first: as an assumed is_fresh it *chooses* the block pointer */
 #define RPP_CS_STATE_(cs, BLOCK) \
-  (((cs)->error.id == 0 || (cs)->error.id == EBUSY || (cs)->error.id == ENOMEM) \
-   && g_al_allocs <= 1 \
-   && ((cs)->buffer.data == NULL \
-       ? ((cs)->buffer.size == 0 && (cs)->buffer.used == 0 && (cs)->buffer.offset == 0 && g_al_live == 0 \
-          && (cs)->error.id != ENOMEM \
-          && IMPLIES((cs)->error.id == 0, g_al_allocs == 0 && (cs)->error.datacount == 0 \
-                     && (cs)->fallback->used == 0 && (cs)->fallback->offset == 0) \
-          && IMPLIES((cs)->error.id == EBUSY, g_al_allocs == 1 && (cs)->fallback->offset == 0)) \
-       : ((void *)(cs)->buffer.data == g_al_block && g_al_live == 1 && g_al_allocs == 1 && (BLOCK) \
-          && !__CPROVER_same_object((cs)->buffer.data, (cs)) && !__CPROVER_same_object((cs)->buffer.data, (cs)->fallback) \
-          && !__CPROVER_same_object((cs)->buffer.data, (cs)->fallback->data) \
-          && !__CPROVER_same_object((cs)->buffer.data, (cs)->alloc) \
-          && (cs)->buffer.size == (cs)->alloc->blocksize && (cs)->buffer.offset == 0 \
-          && sizeof(RPFrame) <= (cs)->buffer.used && (cs)->buffer.used <= (cs)->buffer.size \
-          && (cs)->error.id != EBUSY \
-          && IMPLIES((cs)->error.id == 0, (cs)->error.datacount == 0) \
-          && IMPLIES((cs)->error.id == ENOMEM, (cs)->buffer.used == (cs)->buffer.size) \
-          && (cs)->fallback->used == 0 && (cs)->fallback->offset == 0)))
+  (IMPLIES((cs)->buffer.data != NULL, (BLOCK)) \
+   && RPP_CS_ST_ID(cs) && RPP_CS_ST_NOBLOCK(cs) && RPP_CS_ST_BLOCK_LEDGER(cs) \
+   && RPP_CS_ST_BLOCK_SEP(cs) && RPP_CS_ST_BLOCK_FILL(cs))
 #define RPP_CS_WF(cs) (RPP_CS_CONF_OK(cs) \
   && RPP_CS_STATE_(cs, __CPROVER_rw_ok((cs)->buffer.data, (cs)->alloc->blocksize)))
 #define RPP_MIN(a, b) ((a) < (b) ? (a) : (b))
+/* pre-state cell i of the active buffer (block if present, else fallback) */
+#define RPP_CS_ACTIVE(cs) ((cs)->buffer.data != NULL ? &(cs)->buffer : (cs)->fallback)
+#define RPP_CS_OLD_CELL(cs, i) \
+  __CPROVER_old(RPP_CS_ACTIVE(cs)->data[BB_CL(i, RPP_CS_ACTIVE(cs)->size)])
 
 /* store as much of the data as the active buffer has FREE SPACE for; report
  * -ENOMEM exactly when something had to be dropped */
@@ -576,7 +594,7 @@ __CPROVER_ensures(IMPLIES(cs->buffer.data != NULL
         && g_k < RPP_MIN(n, __CPROVER_old(cs->buffer.size) - __CPROVER_old(cs->buffer.used)),
     cs->buffer.data[BB_CL(__CPROVER_old(cs->buffer.used) + g_k, cs->buffer.size)] == ((const unsigned char *)data)[g_k]))
 __CPROVER_ensures(IMPLIES(cs->buffer.data != NULL && g_j < __CPROVER_old(cs->buffer.used),
-    BB_CELL_SAME(&cs->buffer, g_j)))
+    cs->buffer.data[BB_CL(g_j, cs->buffer.size)] == RPP_CS_OLD_CELL(cs, g_j)))
 /* no block: the fallback is the active buffer */
 __CPROVER_ensures(IMPLIES(cs->buffer.data == NULL,
     cs->fallback->used == __CPROVER_old(cs->fallback->used)
@@ -586,7 +604,7 @@ __CPROVER_ensures(IMPLIES(cs->buffer.data == NULL
         && g_k < RPP_MIN(n, __CPROVER_old(cs->fallback->size) - __CPROVER_old(cs->fallback->used)),
     cs->fallback->data[BB_CL(__CPROVER_old(cs->fallback->used) + g_k, cs->fallback->size)] == ((const unsigned char *)data)[g_k]))
 __CPROVER_ensures(IMPLIES(cs->buffer.data == NULL && g_j < __CPROVER_old(cs->fallback->used),
-    BB_CELL_SAME(cs->fallback, g_j)))
+    cs->fallback->data[BB_CL(g_j, cs->fallback->size)] == RPP_CS_OLD_CELL(cs, g_j)))
 __CPROVER_ensures(cs->buffer.data == __CPROVER_old(cs->buffer.data) && cs->buffer.size == __CPROVER_old(cs->buffer.size)
     && cs->buffer.offset == __CPROVER_old(cs->buffer.offset)
     && cs->fallback->data == __CPROVER_old(cs->fallback->data) && cs->fallback->size == __CPROVER_old(cs->fallback->size)
@@ -617,7 +635,14 @@ __CPROVER_assigns(((ContinuableSink *)driver)->buffer, ((ContinuableSink *)drive
 /* accepts everything */
 __CPROVER_ensures(__CPROVER_return_value == (ssize_t)n)
 /* preserves the invariant (never outside block / fallback: exact-size objects + assigns) */
-__CPROVER_ensures(RPP_CS_WF((ContinuableSink *)driver))
+__CPROVER_ensures(RPP_CS_CONF_OK((ContinuableSink *)driver))
+__CPROVER_ensures(RPP_CS_ST_ID((ContinuableSink *)driver))
+__CPROVER_ensures(RPP_CS_ST_NOBLOCK((ContinuableSink *)driver))
+__CPROVER_ensures(RPP_CS_ST_BLOCK_LEDGER((ContinuableSink *)driver))
+__CPROVER_ensures(IMPLIES(((ContinuableSink *)driver)->buffer.data != NULL,
+    __CPROVER_rw_ok(((ContinuableSink *)driver)->buffer.data, ((ContinuableSink *)driver)->alloc->blocksize)))
+__CPROVER_ensures(RPP_CS_ST_BLOCK_SEP((ContinuableSink *)driver))
+__CPROVER_ensures(RPP_CS_ST_BLOCK_FILL((ContinuableSink *)driver))
 /* allocates at most once, and only when there is no block and no error yet */
 __CPROVER_ensures(g_al_allocs == __CPROVER_old(g_al_allocs)
     + ((__CPROVER_old(((ContinuableSink *)driver)->buffer.data) == NULL
@@ -694,8 +719,8 @@ extern size_t g_dec_len;    /* frame octets stored in the block (0 without block
 #define RPP_DEC_FRAME_CAP(sink) 1
 #endif
 #define RPP_DEC_ENS(sink, rc) \
-  (RPP_CS_CONF_OK(RPP_DEC_CS(sink)) \
-   && RPP_CS_STATE_(RPP_DEC_CS(sink), __CPROVER_is_fresh(RPP_DEC_CS(sink)->buffer.data, RPP_DEC_CS(sink)->alloc->blocksize)) \
+  (RPP_CS_STATE_(RPP_DEC_CS(sink), __CPROVER_is_fresh(RPP_DEC_CS(sink)->buffer.data, RPP_DEC_CS(sink)->alloc->blocksize)) \
+   && BB_WF(RPP_DEC_CS(sink)->fallback) \
    && g_dec_rc == (int)(rc) && g_dec_id == RPP_DEC_CS(sink)->error.id \
    && g_dec_len == (RPP_DEC_CS(sink)->buffer.data != NULL ? RPP_DEC_CS(sink)->buffer.used - sizeof(RPFrame) : (size_t)0) \
    && RPP_DEC_FRAME_CAP(sink))
